@@ -346,17 +346,25 @@ Proof.
   simpl in C. destruct (feed turn_body (alive s) a). simpl in *. rewrite app_nil_r in C. exact C.
 Qed.
 
-(** ** no Fault and no livelock as long as no decoded header announces more than recv_buf holds *)
-Definition hdr_fits (e : ev) : Prop := match e with Hdr n => n <= RECV_BUF_SIZE | _ => True end.
-Definition twf' (s : tst) : Prop :=
-  twf s /\ lenZ (t_buf s) = RECV_BUF_SIZE /\ (t_exp s <> 0 -> turn_tot s <= RECV_BUF_SIZE).
+(** ** no Fault and no livelock: the largest frame a header can announce fits recv_buf *)
+Lemma ceil4_bound e : 0 <= e <= 65555 -> e + (if e mod 4 =? 0 then 0 else 4 - e mod 4) <= 65556.
+Proof.
+  intros. pose proof (Z.div_mod e 4 ltac:(lia)). pose proof (Z.mod_pos_bound e 4 ltac:(lia)).
+  destruct (Z.eqb_spec (e mod 4) 0); lia.
+Qed.
+Lemma tot_bound s : 0 <= t_exp s <= 65555 -> turn_tot s <= RECV_BUF_SIZE.
+Proof.
+  intros. rewrite turn_tot_eq by auto. unfold padlen, RECV_BUF_SIZE.
+  destruct (is_rfc (t_compat s)); [apply ceil4_bound; auto | lia].
+Qed.
+Definition twf' (s : tst) : Prop := twf s /\ lenZ (t_buf s) = RECV_BUF_SIZE.
 
-Lemma payload_ok s kb o k e : pre_payload s -> lenZ (t_buf s) = RECV_BUF_SIZE -> turn_tot s <= RECV_BUF_SIZE ->
+Lemma payload_ok s kb o k e : pre_payload s -> lenZ (t_buf s) = RECV_BUF_SIZE ->
   exec (turn_payload s) kb = (o, k, e) ->
   lenZ k = lenZ kb - lenZ (takeZ (turn_tot s - t_len s) kb) /\
   exists s1 r, o = Some (s1, r) /\ 0 <= r /\ twf' s1.
 Proof.
-  intros P LB FT E. pose proof P as [[L1 L2] X].
+  intros P LB E. pose proof P as [[L1 L2] X]. pose proof (tot_bound s X) as FT.
   assert (EW : exists s1 r, o = Some (s1, r)).
   { unfold turn_payload in E. simpl in E. rewrite payload_req in E by auto.
     set (d := takeZ (turn_tot s - t_len s) kb) in *.
@@ -386,18 +394,18 @@ Proof.
   destruct (mwrite (t_buf s) (t_len s) _) as [buf1|] eqn:MW; [|inversion E].
   pose proof (mwrite_len _ _ _ _ MW) as LB1.
   destruct (_ =? _).
-  - destruct (mreadn _ _ _); [|inversion E]. destruct (0 <? _); inversion E; subst; simpl; split; try congruence.
-  - inversion E; subst. simpl. split; [congruence|]. intros _. exact FT.
+  - destruct (mreadn _ _ _); [|inversion E]. destruct (0 <? _); inversion E; subst; simpl; congruence.
+  - inversion E; subst. simpl. congruence.
 Qed.
 
-Lemma turn_call_ok s kb o k e : twf' s -> kb <> [] -> exec (turn_body s) kb = (o, k, e) -> Forall hdr_fits e ->
+Lemma turn_call_ok s kb o k e : twf' s -> kb <> [] -> exec (turn_body s) kb = (o, k, e) -> Forall (fun _ => True) e ->
   match o with None => False | Some (s1, r) => 0 <= r -> twf' s1 /\ lenZ k < lenZ kb end.
 Proof.
-  intros (W & LB & FT) NK E G. pose proof W as (A & B & C & D).
+  intros (W & LB) NK E _. pose proof W as (A & B & C & D).
   pose proof (lenZ_pos kb NK) as Lk.
   destruct (Z.eq_dec (t_exp s) 0) as [E0|E0].
   2:{ rewrite turn_body_payload in E by auto.
-      destruct (payload_ok s kb o k e (twf_pre _ W E0) LB (FT E0) E) as (LK & s1 & r & -> & R & W1).
+      destruct (payload_ok s kb o k e (twf_pre _ W E0) LB E) as (LK & s1 & r & -> & R & W1).
       intros _. split; auto. rewrite LK, lenZ_takeZ. specialize (D E0). lia. }
   unfold turn_body in E. rewrite E0 in E. change (0 =? 0) with true in E. cbv iota in E.
   destruct (hdrlen (t_compat s)) as [hl|] eqn:Hh.
@@ -409,15 +417,14 @@ Proof.
   assert (Ld : 1 <= lenZ d <= hl - t_len s) by (unfold d; rewrite lenZ_takeZ; lia).
   assert (Lr : lenZ rest < lenZ kb) by (unfold rest; rewrite lenZ_dropZ; lia).
   destruct (exec (turn_hdr_k s hl d) rest) as [[o' k'] e'] eqn:E'. inversion E; subst o' k' e. clear E.
-  inversion G as [|? ? _ G']; subst. clear G.
   unfold turn_hdr_k in E'. unfold RECV_BUF_SIZE in *.
   rewrite (mwrite_some (t_buf s) (t_len s) d) in E' by lia.
   set (buf1 := takeZ (t_len s) (t_buf s) ++ d ++ dropZ (t_len s + lenZ d) (t_buf s)) in *.
-  assert (LB1 : lenZ buf1 = 65536).
+  assert (LB1 : lenZ buf1 = 65556).
   { unfold buf1. rewrite !lenZ_app, lenZ_takeZ, lenZ_dropZ. lia. }
   destruct (Z.ltb_spec (t_len s + lenZ d) hl).
   { simpl in E'. inversion E'; subst. intros _. split; [|lia].
-    split; [|split; simpl; [exact LB1 | congruence]].
+    split; [|simpl; exact LB1].
     unfold twf; simpl. repeat split; try lia.
     intros _ hl' Hh'. rewrite Hh in Hh'. inversion Hh'; subst. lia. }
   (* header complete *)
@@ -425,13 +432,12 @@ Proof.
   destruct (mread_some buf1 0 ltac:(lia)) as [b0 M0]. destruct (mread_some buf1 1 ltac:(lia)) as [b1 M1].
   destruct (mread_some buf1 2 ltac:(lia)) as [b2 M2]. destruct (mread_some buf1 3 ltac:(lia)) as [b3 M3].
   rewrite M0, M1, M2, M3 in E'.
-  assert (FIN : forall s2, pre_payload s2 -> lenZ (t_buf s2) = 65536 ->
+  assert (FIN : forall s2, pre_payload s2 -> lenZ (t_buf s2) = 65556 ->
                 exec (turn_frame_start s2) rest = (o, k, e') ->
                 match o with None => False | Some (s1, r) => 0 <= r -> twf' s1 /\ lenZ k < lenZ kb end).
   { intros s2 P2 LB2 EX. rewrite frame_start_exec in EX.
     destruct (exec (turn_payload s2) rest) as [[o'' k''] e''] eqn:E''. inversion EX; subst o'' k'' e'. clear EX.
-    inversion G' as [|? ? FIT _]; subst. simpl in FIT. unfold RECV_BUF_SIZE in FIT.
-    destruct (payload_ok s2 rest o k e'' P2 LB2 FIT E'') as (LK & s1 & r & -> & R & W1).
+    destruct (payload_ok s2 rest o k e'' P2 LB2 E'') as (LK & s1 & r & -> & R & W1).
     intros _. split; auto. rewrite LK. pose proof (lenZ_nonneg (takeZ (turn_tot s2 - t_len s2) rest)). lia. }
   pose proof (be16_range b0 b1). pose proof (be16_range b2 b3).
   destruct (is_rfc (t_compat s)) eqn:R.
@@ -457,20 +463,17 @@ Qed.
 
 Lemma twf'_init c : twf' (turn_init c).
 Proof.
-  split; [apply twf_init|]. split.
-  - unfold turn_init; cbn [t_buf]. rewrite lenZ_repZ. reflexivity.
-  - unfold turn_init; cbn [t_exp]. congruence.
+  split; [apply twf_init|]. unfold turn_init; cbn [t_buf]. rewrite lenZ_repZ. reflexivity.
 Qed.
 
-Theorem turn_no_fault_except_oversize : forall c cs,
-  Forall hdr_fits (snd (run turn_body (alive (turn_init c)) cs)) ->
+Theorem turn_no_fault : forall c cs,
   ~ In EFault (snd (run turn_body (alive (turn_init c)) cs)) /\
   ~ In ELive (snd (run turn_body (alive (turn_init c)) cs)).
 Proof.
-  intros c cs G.
-  destruct (run_ok turn_body twf' hdr_fits turn_call_ok cs (alive (turn_init c))
-              (fun _ => twf'_init c) ltac:(discriminate) ltac:(discriminate) G) as (A & B & _).
-  auto.
+  intros c cs.
+  destruct (run_ok turn_body twf' (fun _ => True) turn_call_ok cs (alive (turn_init c))
+              (fun _ => twf'_init c) ltac:(discriminate) ltac:(discriminate)) as (A & B & _); auto.
+  apply Forall_forall. auto.
 Qed.
 
 (** ** framing round trip (Google mode): what the send path emits for a message is delivered upward as exactly
@@ -493,7 +496,7 @@ Lemma google_frame_delivered m : 0 < lenZ m <= 65535 ->
 Proof.
   intros Lm h1 h2. set (n := lenZ m) in *.
   set (buf := repZ 0 (Z.to_nat RECV_BUF_SIZE)).
-  assert (LB : lenZ buf = 65536) by (unfold buf; rewrite lenZ_repZ; reflexivity).
+  assert (LB : lenZ buf = 65556) by (unfold buf; rewrite lenZ_repZ; reflexivity).
   unfold turn_body. cbn [t_exp t_compat t_len turn_init]. change (0 =? 0) with true. cbv iota.
   change (hdrlen GOOGLE) with (Some 2). cbv iota. change (w64 (2 - 0)) with 2.
   rewrite exec_read.
@@ -507,7 +510,7 @@ Proof.
   rewrite (mwrite_some buf 0 [h1; h2]) by (lz; lia).
   rewrite (takeZ_nonpos 0 buf) by lia. lz. cbn [app].
   set (tl := dropZ (0 + (1 + (1 + 0))) buf).
-  assert (Ltl : lenZ tl = 65534) by (unfold tl; rewrite lenZ_dropZ; lia).
+  assert (Ltl : lenZ tl = 65554) by (unfold tl; rewrite lenZ_dropZ; lia).
   change (0 + (1 + (1 + 0)) <? 2) with false. cbv iota.
   unfold turn_header.
   rewrite mread_head.
@@ -568,10 +571,9 @@ Definition rfc_consistent (m : list Z) : Prop :=
 
 Lemma rfc_frame_delivered c m : is_rfc c = true -> rfc_consistent m ->
   let fr := m ++ repZ 0 (Z.to_nat (if lenZ m mod 4 =? 0 then 0 else 4 - lenZ m mod 4)) in
-  lenZ fr <= 65536 ->
   exists e s1, exec (turn_body (turn_init c)) fr = (Some (s1, 1), [], e) /\ vis vis_msg e = [OMsg fr (-1)] /\ twf s1.
 Proof.
-  intros RC CO fr LF.
+  intros RC CO fr.
   destruct m as [|b0 [|b1 [|b2 [|b3 m']]]]; try contradiction. simpl in CO.
   set (n := lenZ (b0 :: b1 :: b2 :: b3 :: m')) in *.
   set (padn := if n mod 4 =? 0 then 0 else 4 - n mod 4) in *.
@@ -584,8 +586,10 @@ Proof.
   pose proof (lenZ_nonneg m') as Lm'.
   assert (LR : lenZ rest = n - 4 + padn) by (unfold rest; rewrite lenZ_app; lia).
   assert (LFR : lenZ fr = n + padn) by (rewrite FR, lenZ_app, LR; lz; lia).
+  assert (LF : lenZ fr <= 65556).
+  { rewrite LFR. pose proof (be16_range b2 b3). unfold padn. apply ceil4_bound. rewrite CO. destruct (be16 b0 b1 <? 16384); lia. }
   set (buf := repZ 0 (Z.to_nat RECV_BUF_SIZE)).
-  assert (LB : lenZ buf = 65536) by (unfold buf; rewrite lenZ_repZ; reflexivity).
+  assert (LB : lenZ buf = 65556) by (unfold buf; rewrite lenZ_repZ; reflexivity).
   unfold turn_body. cbn [t_exp t_compat t_len turn_init]. change (0 =? 0) with true. cbv iota.
   assert (HL : hdrlen c = Some 4) by (unfold hdrlen; rewrite RC; reflexivity). rewrite HL.
   change (w64 (4 - 0)) with 4. rewrite exec_read.
@@ -599,7 +603,7 @@ Proof.
   rewrite (mwrite_some buf 0 [b0; b1; b2; b3]) by (lz; lia).
   rewrite (takeZ_nonpos 0 buf) by lia. lz. cbn [app].
   set (tl := dropZ (0 + (1 + (1 + (1 + (1 + 0))))) buf).
-  assert (Ltl : lenZ tl = 65532) by (unfold tl; rewrite lenZ_dropZ; lia).
+  assert (Ltl : lenZ tl = 65552) by (unfold tl; rewrite lenZ_dropZ; lia).
   change (0 + (1 + (1 + (1 + (1 + 0)))) <? 4) with false. cbv iota.
   unfold turn_header.
   assert (M0 : mread (b0 :: b1 :: b2 :: b3 :: tl) 0 = Some b0) by reflexivity.
@@ -640,17 +644,17 @@ Proof.
 Qed.
 
 Theorem turn_roundtrip_rfc c bufs cs : is_rfc c = true -> rfc_consistent (concat bufs) ->
-  lenZ (turn_frame c bufs) <= 65536 -> concat cs = turn_frame c bufs ->
+  concat cs = turn_frame c bufs ->
   vis vis_msg (snd (run turn_body (alive (turn_init c)) cs)) = [OMsg (turn_frame c bufs) (-1)].
 Proof.
-  intros RC CO LF Cc. set (m := concat bufs) in *.
+  intros RC CO Cc. set (m := concat bufs) in *.
   destruct (turn_seg_independent (turn_init c) cs (twf_init c)) as [_ V]. rewrite V, Cc.
   assert (NG : (c =? GOOGLE) = false).
   { unfold is_rfc in RC. apply orb_true_iff in RC. destruct RC as [X|X]; apply Z.eqb_eq in X; subst c; reflexivity. }
   assert (TF : turn_frame c bufs = m ++ repZ 0 (Z.to_nat (if lenZ m mod 4 =? 0 then 0 else 4 - lenZ m mod 4))).
   { unfold turn_frame. rewrite NG, RC. reflexivity. }
   rewrite TF in *.
-  destruct (rfc_frame_delivered c m RC CO LF) as (e & s1 & E & Ve & W).
+  destruct (rfc_frame_delivered c m RC CO) as (e & s1 & E & Ve & W).
   set (fr := m ++ repZ 0 (Z.to_nat (if lenZ m mod 4 =? 0 then 0 else 4 - lenZ m mod 4))) in *.
   unfold feed, alive. cbn [dead inner]. change (0 =? 0) with true. cbv iota.
   assert (NE : fr <> []).
